@@ -26,6 +26,34 @@ CLAIMS = {
         text="no_internal_failure for every run of the closed system (13 generated Automat tables + hand-written output semantics × conformant environment), by a finite inductive-invariant certificate (2.8e4 states × 34 events, recomputed from the generated tables) lifted to unbounded runs by a kernel-checked induction; the control model agrees with the real client step by step (13 machine states, commands, events, exceptions) on every generated schedule against the real mailbox server objects.",
         note="The certificate evaluation uses native_decide (adds the Lean compiler to the trusted base for WV.ClientCert.cert; reported per theorem). The environment model WV.ClientEnv.enabled is hand-written. Modelled not verified: SPAKE2/SecretBox/HKDF (classified by the harness with the real keys), ClientService, autobahn; dilate() not called in this world.",
         tech="Lean 4: finite certificate (native_decide) + kernel-checked lifting induction; translator-generated tables; per-step differential correspondence"),
+    "C01": dict(
+        text="17 Lean theorems over the generated Key/_SortedKey/Order/Receive/Send/Boss tables with hand-written output bodies and crypto as an ideal interface: key_agree_iff (both arrival orders: stash-then-code = code-then-pake; keys equal iff NFC codes and appids equal), match_derive_equal / purposes_separate (with the exact HKDF length guard), mismatch_delivers_nothing for every message schedule (induction); tied to two real clients with real SPAKE2/NaCl against the real server objects.",
+        note="Modelled not verified: SPAKE2, HKDF-SHA256, SHA-256, SecretBox, Unicode NFC (ideal interface `Crypto.Ideal`, toy instance for non-vacuity); two-party statements are per side with the peer's actual messages.",
+        tech="Lean 4 proof (case analysis on generated tables + induction over message schedules) + skeleton agreement + differential correspondence"),
+    "C06": dict(
+        text="18 Lean theorems: chunking_invariant (full state equality for every chunking), roundtrip for every record list/chunking/direction, tamper_prefix and first_bad_frame_drops under an ideal-AEAD hypothesis (delivered is a prefix; first non-honest frame => hung up, loseConnection last, nothing further), nonce_must_equal_counter, directions_separated, pending_reads_fail_on_loss, consumer_mode_same_bytes; model runs on the real NaCl ciphertext bytes with a sealing table; 14 generated call skeletons and the four key-derivation CTXinfos are proof obligations.",
+        note="Modelled not verified: XSalsa20-Poly1305 (ideal AEAD), Twisted calling connectionLost after loseConnection; handshake states belong to C07; consumer attach mid-stream / expected=0 only by correspondence.",
+        tech="Lean 4 proof (induction over chunkings and record lists) + generated skeletons/constants + differential correspondence on real ciphertext"),
+    "C07": dict(
+        text="14 Lean theorems over arbitrary event lists and any number of connections: go_only_after_handshake, sender_at_most_one_go, nevermind_only_loser, receiver_only_after_go, selected_holds_key, handshake_prefix_exact_partial, rejected_is_inert, only_one_fires_once_partial; _dataReceived arm order, wire literals and the 2*TIMEOUT deadline are generated and checked; tied to real TransitSender/TransitReceiver.connect() with fake endpoints and task.Clock.",
+        note="Partial: liveness half of handshake_prefix_exact, the deadline theorem, 'cancels the rest' and same_link are stated as defs and checked only by the oracle on the real code. Assumed: HKDF distinctness of handshake strings, Twisted Deferred/Clock semantics, nothing delivered after loseConnection.",
+        tech="Lean 4 proof (invariants over event lists) + generated dispatch order/constants + differential correspondence"),
+    "C08": dict(
+        text="closed_at_most_once, silent_after_closed, verdict_correct, resources_freed_partial for every run of the closed client x environment system (finite certificate over the generated tables lifted by induction), close_always_possible as a kernel-proved-sound backward-fixpoint certificate (no trap after close()), table lemmas by decide; per-step correspondence with the real client; the oracle inspects the REAL server tables when `closed` is notified. One known finding (allocation in flight leaks the allocated nameplate) with a Lean witness theorem.",
+        note="Certificates evaluated with native_decide (Lean compiler trusted for WV.ClientCert.cert / certClosable; reported per theorem). Environment model hand-written. Liveness is no-trap under a cooperative environment, not fair-scheduler liveness.",
+        tech="Lean 4: finite certificates (native_decide) + kernel-checked lifting inductions + table decide; per-step differential correspondence"),
+    "C13": dict(
+        text="16 Lean theorems over arbitrary histories on the generated SubChannel table: ids_disjoint, connectionLost_once, nothing_after_lost, write_after_close_errors, unexpected_refused (wiring taken from generated source flags), open_with_listener / open_without_listener_pends / listen_connects_pending, protocol_never_replaced, data_before_close_partial; tied to real Dilator->Manager->Inbound/SubChannel/demultiplexer/endpoints.",
+        note="Partial: full two-sided data_before_close statement kept as a def (glue by oracle); listen_connects_pending for one pending OPEN. Trusted: C10 delivery, fake Connector/connection, no re-entrant callbacks.",
+        tech="Lean 4 proof (induction over histories, per-row decide on generated table) + generated wiring flags + differential correspondence"),
+    "C15": dict(
+        text="19 Lean theorems over every reachable micro-configuration of a small-step model with an explicit Python call stack (re-entrant producer turns as an oracle): sets_partition, paused_means_all_paused, waiting_producer_has_active_loop (no lost wake-up), drain_resumes_all, fair_rotation, no_double_signal, inbound_pause_exact (needs the forwarding added by fix ed4a840, read from generated skeletons); tied to real Outbound/Inbound/PullToPush/DilatedConnectionProtocol with mock producers.",
+        note="Environment hypotheses explicit in Reach (producers' pause/stop do not call back; one producer per subchannel; use/stop connection alternate). Trusted: Cooperator scheduling (fake scheduler).",
+        tech="Lean 4 proof (invariants over a small-step semantics with call stack) + skeleton agreement + differential correspondence incl. exhaustive small scopes"),
+    "C19": dict(
+        text="21 Lean theorems: word_tables_bijective (decide +kernel over the generated 256-entry tables), choose_words_shape/injective, allocated_shape, completion_extends/exact/acceptable/complete, wellformed_iff and malformed_rejected (regex semantics keyed on the extracted regex; Unicode \\d ranges generated), only_one_code / failed_set_code_keeps_latch / at_most_one_code, helper order errors from the generated Input table; tied to the real wordlist/Code/Input/Allocator/Boss.",
+        note="Modelled not verified: os.urandom uniformity, the two known regexes' semantics (hand-modelled, an unknown regex breaks proof and correspondence). input_code_shape is step-level with state hypotheses.",
+        tech="Lean 4 proof (decide +kernel on generated tables, induction over byte lists/prefixes) + differential correspondence"),
     "C20": dict(
         text="hints_total / only_valid_dialled / encode_parse_roundtrip proved for every JSON value in hint position over an executable model of Python's dynamic behaviour on JSON and of parse_hint, add_connection_hints, _connect grouping, Manager.use_hints, Connector._use_hints; guard list extracted by ast is a proof obligation (guards_agree); tied to the real functions by differential runs.",
         note="Modelled not verified: Twisted endpoints/Tor (recorders), CPython sorted() on nan priorities (compared order-free).",
